@@ -636,6 +636,29 @@ end
 section
 variable {V : Type}
 
+/-- `modified()` with nothing to modify always succeeds … -/
+private theorem modifiedReg_nil (schema : String → V → Option V) (r : Reg V) : modifiedReg schema r [] = some r := by
+  simp [modifiedReg]
+
+/-- **the baseline point of a sweep**: `modified(newSettings={})` / `modified()` / `duplicate()` — a copy with an EMPTY set of
+modifications — is still a NEW object holding the same values: any history of assignments through it leaves the original
+alone, and any history through the original leaves it alone. -/
+theorem modified_empty_is_independent_copy (schema : String → V → Option V) (s : Store V) (a : Nat) (r : Reg V)
+    (ha : s[a]? = some r) :
+    ∃ s' b, Store.modified schema s a [] = some (s', b) ∧ b ≠ a ∧ s'[b]? = some r ∧ s'[a]? = some r ∧
+      (∀ ops, (Store.assignMany schema s' b ops)[a]? = some r) ∧
+      (∀ ops, (Store.assignMany schema s' a ops)[b]? = some r) := by
+  have hm : Store.modified schema s a [] = some (s ++ [r], s.length) := by
+    unfold Store.modified; simp [ha, modifiedReg_nil]
+  obtain ⟨h1, h2, h3, h4, h5⟩ := modified_isolated schema s (s ++ [r]) a s.length [] hm
+  have hb : (s ++ [r])[s.length]? = some r := by rw [h3, ha]; simp [modifiedReg_nil]
+  refine ⟨s ++ [r], s.length, hm, h1, hb, by rw [h2, ha], ?_, ?_⟩
+  · intro ops; rw [h4 ops, ha]
+  · intro ops; rw [h5 ops, hb]
+
+example : ∃ s' b, Store.modified (fun _ (v : Nat) => some v) [[⟨"a", 1, 2⟩]] 0 [] = some (s', b) ∧ b ≠ 0 :=
+  ⟨_, _, rfl, by decide⟩
+
 /-- a current setting name is never renamed (whatever old names are declared) -/
 theorem rename_idempotent_on_current (cur : List String) (rn : Renames) (n : String) (h : n ∈ cur) :
     renameSetting cur rn n = (n, false) := by
